@@ -352,7 +352,14 @@ class Run(RunBase):
         ts = op.get("time_steps")
         self.last = ("assign[all]" if ids is None else "assign[subset]") + ("" if ts is None else "[time_steps]")
         try:
-            self.sc.assign_obstacles_to_lanelets(time_steps=ts, obstacle_ids=None if ids is None else set(ids))
+            form = op.get("form", "set")
+            ids_arg = None if ids is None else {"set": set, "list": list, "tuple": tuple}[form](ids)
+            ts_arg = ts
+            if ts is not None and op.get("ts_form") == "tuple":
+                ts_arg = tuple(ts)
+            elif ts is not None and op.get("ts_form") == "range" and ts == list(range(ts[0], ts[-1] + 1)):
+                ts_arg = range(ts[0], ts[-1] + 1)
+            self.sc.assign_obstacles_to_lanelets(time_steps=ts_arg, obstacle_ids=ids_arg)
         except Exception as e:  # noqa
             kinds = sorted({self.universe_shape_kind(i) for i in (ids or self.contained)
                             if self.contained.get(i) in ("static", "dynamic")})
@@ -455,7 +462,8 @@ def _adder(rng, run, cfg):
 def _assigner(rng, run, cfg):
     while True:
         c = sorted(i for i, k in run.contained.items() if k in ("static", "dynamic"))
-        op = {"op": "assign", "ids": None}
+        op = {"op": "assign", "ids": None, "form": rng.choice(["set", "set", "list", "tuple"]),
+              "ts_form": rng.choice(["list", "tuple", "range"])}
         if c and rng.chance(0.5):
             op["ids"] = sorted(rng.subset(c, 0.5, at_least=1))
         if rng.chance(cfg.get("p_time_steps", 0.0)):
